@@ -5,6 +5,7 @@
 #include <sstream>
 #include <stdexcept>
 #include <chrono>
+#include <type_traits>
 
 #include "awkward/forth/ForthMachine.h"
 
@@ -3537,6 +3538,11 @@ namespace awkward {
               }
               // Forth (gforth, at least) does floor division; C++ does integer division.
               // This makes a difference for negative numerator or denominator.
+              if (pair[1] == -1) {
+                // x / -1 is -x with wraparound; the hardware division traps on the minimum integer.
+                pair[0] = (T)(0 - (typename std::make_unsigned<T>::type)pair[0]);
+                break;
+              }
               T tmp = pair[0] / pair[1];
               pair[0] = tmp * pair[1] == pair[0] ? tmp : tmp - ((pair[0] < 0) ^ (pair[1] < 0));
               break;
@@ -3554,6 +3560,10 @@ namespace awkward {
               }
               // Forth (gforth, at least) does modulo; C++ does remainder.
               // This makes a difference for negative numerator or denominator.
+              if (pair[1] == -1) {
+                pair[0] = 0;
+                break;
+              }
               pair[0] = (pair[1] + (pair[0] % pair[1])) % pair[1];
               break;
             }
@@ -3570,6 +3580,11 @@ namespace awkward {
                 return;
               }
               // See notes on division and modulo/remainder above.
+              if (two == -1) {
+                stack_buffer_[stack_depth_ - 1] = (T)(0 - (typename std::make_unsigned<T>::type)one);
+                stack_buffer_[stack_depth_ - 2] = 0;
+                break;
+              }
               T tmp = one / two;
               stack_buffer_[stack_depth_ - 1] =
                   tmp * two == one ? tmp : tmp - ((one < 0) ^ (two < 0));
